@@ -185,7 +185,7 @@ func (r Registry[R, T]) makeRPC(
 		}
 		verifYield("call.registered", callID)
 
-		res := make(chan callResponse[T])
+		res := make(chan callResponse[T], 1) // Buffered so that the goroutine below can always exit, even if we stopped waiting
 		go func() {
 			defer responseResolver.Free(callID, context.Canceled)
 			verifYield("waiter.start", callID)
